@@ -59,7 +59,13 @@ TBase == <<
   <<"SHOW", " ", "TAG", " ", "VALUES", " ", "ON", " ", "db", " ", "FROM", " ", "rp", ".", "/m/", " ", "WITH", " ", "KEY", " ", "IN", " ", "(", "a", ",", "b", ")">>,
   <<"SHOW", " ", "MEASUREMENTS", " ", "ON", " ", "*", ".", "*", " ", "WITH", " ", "MEASUREMENT", " ", "=~", " ", "/m/">>,
   <<"CREATE", " ", "SUBSCRIPTION", " ", "s", " ", "ON", " ", "db", ".", "rp", " ", "DESTINATIONS", " ", "ALL", " ", "'a'", ",", "'b'">>,
-  <<"SELECT", " ", "-", "(", "a", "+", "-", "1.5", ")", "*", "f", "(", "/re/", ",", "DISTINCT", " ", "v", ")", " ", "FROM", " ", "(", "SELECT", " ", "a", " ", "FROM", " ", "m", ")">>
+  <<"SELECT", " ", "-", "(", "a", "+", "-", "1.5", ")", "*", "f", "(", "/re/", ",", "DISTINCT", " ", "v", ")", " ", "FROM", " ", "(", "SELECT", " ", "a", " ", "FROM", " ", "m", ")">>,
+  \* statements the parser validates further after parsing them (continuous queries: GROUP BY time(...) is inspected
+  \* by the parser itself), every token of the time() call on its own
+  <<"CREATE", " ", "CONTINUOUS", " ", "QUERY", " ", "cq", " ", "ON", " ", "d", " ", "RESAMPLE", " ", "EVERY", " ", "10s", " ", "FOR", " ", "2m", " ", "BEGIN", " ", "SELECT", " ",
+    "mean", "(", "v", ")", " ", "INTO", " ", "t", " ", "FROM", " ", "m", " ", "GROUP", " ", "BY", " ", "time", "(", "1m", ",", "10s", ")", ",", "h", " ", "END">>,
+  <<"SELECT", " ", "percentile", "(", "v", ",", "90", ")", ",", "holt_winters", "(", "mean", "(", "v", ")", ",", "2", ",", "3", ")", " ", "FROM", " ", "m", " ", "WHERE", " ", "time", ">",
+    "now", "(", ")", "-", "1h", " ", "GROUP", " ", "BY", " ", "time", "(", "1m", ")", " ", "fill", "(", "previous", ")", " ", "LIMIT", " ", "1">>
 >>
 
 Families == <<"paren", "paren_where", "call", "subquery", "neg", "fields", "sources", "and_chain", "or_and_chain", "arith_chain",
